@@ -506,7 +506,7 @@ function installTap(H) {
 }
 
 const BOUNDS = [55, 56, 57, 63, 64, 65, 119, 120, 121, 127, 128, 129, 191, 192, 193, 255, 256, 257, 319, 320, 321, 447, 448, 449, 511, 512, 513];
-const MULTI = ["é", "漢", "😀", "\ud800", "ß", "\u0000", "￿"];
+const MULTI = ["é", "漢", "😀", "\ud800", "ß", "\u0000", "￿", "e\u0301", "\u2126", "\u212b", "\u1e9b\u0323"];
 function utf8len(s) {
   return Buffer.byteLength(new TE().encode(s));
 }
@@ -617,6 +617,15 @@ function sibling(ops, p) {
       if (o.op !== "string" && o.op !== "tag") return null;
       {
         // prefer a character that is not ASCII (wherever it sits): another one of the same width
+        // another spelling of the same text under Unicode normalisation (precomposed <-> combining mark, OHM
+        // SIGN <-> GREEK OMEGA): different strings to a validator, so different digests
+        if (p.salt % 3 === 1 && !/[\ud800-\udfff]/.test(o.v)) {
+          const alt = o.v.normalize("NFC") !== o.v ? o.v.normalize("NFC") : o.v.normalize("NFD") !== o.v ? o.v.normalize("NFD") : null;
+          if (alt !== null) {
+            out[i].v = alt;
+            break;
+          }
+        }
         const special = [];
         for (let k = 0; k < o.v.length && special.length < 64; k++) if (o.v.charCodeAt(k) > 127) special.push(k);
         if (special.length && p.salt % 2 === 0) {
@@ -768,26 +777,46 @@ function execC13(H, run) {
   return out;
 }
 
-// the bit-length high word: more than 2^29 bytes through one writer (thorough tier only)
-function bigC13(H) {
+// the bit-length high word and the counters behind it: very long streams through one writer, made of many
+// writes (514 x 1 MiB: more than 2^29 bytes) or of a few small writes and ONE very long one (2^28 bytes and
+// more in a single token: what `size << 3` or a 32-bit byte counter get wrong)
+function bigC13(H, plan = { chunks: 514, chunk_bytes: 1 << 20 }) {
   const w = new H.Hash256Writer();
   const ref = createHash("sha256");
-  const proto = H.Hash256Writer.prototype;
   // tap straight into the reference hash instead of buffering half a gigabyte
   const prev = TAPPED;
   TAPPED = { push: (b) => ref.update(b) };
-  const chunk = "x".repeat(1 << 20);
   let bytes = 0;
-  for (let i = 0; i < 514; i++) {
-    w.updateString(chunk);
-    if (MIRROR) ref.update(mirrorBytes({ op: "string", v: chunk }));
-    bytes += 5 + chunk.length;
+  const put = (str) => {
+    w.updateString(str);
+    if (MIRROR) ref.update(mirrorBytes({ op: "string", v: str }));
+    bytes += 5 + str.length;
+  };
+  let got;
+  try {
+    for (const lead of plan.lead || []) put(lead);
+    const chunk = "x".repeat(plan.chunk_bytes);
+    for (let i = 0; i < plan.chunks; i++) put(chunk);
+    for (const tail of plan.tail || []) put(tail);
+    got = w.digestHex();
+  } catch (e) {
+    TAPPED = prev;
+    // an engine that cannot hold the string is not the writer's fault
+    return { ok: true, skipped: String(e && e.message).slice(0, 120), bytes };
   }
-  const got = w.digestHex();
   TAPPED = prev;
   const want = ref.digest("hex");
-  return { ok: got === want, got, want, bytes };
+  return { ok: got === want, got, want, bytes, plan };
 }
+const BIG_PLANS = {
+  quick: [{ lead: ["ab"], chunks: 1, chunk_bytes: 2 ** 28, tail: ["c"] }],
+  thorough: [
+    { chunks: 514, chunk_bytes: 1 << 20 },
+    { lead: ["ab"], chunks: 1, chunk_bytes: 2 ** 28, tail: ["c"] },
+    { lead: [], chunks: 1, chunk_bytes: 2 ** 29 - 64, tail: ["tail"] },
+    { lead: ["x".repeat(61)], chunks: 2, chunk_bytes: 2 ** 28 + 3 },
+  ],
+};
 
 // ------------------------------------------------------------------------------------------------
 // C04 Node leg: every emitted module loads and builds a parser for every requested name
@@ -1388,6 +1417,16 @@ async function main() {
       console.log(`replay of ${a1} did not reproduce class '${run.violation_class}'`);
       process.exit(0);
     }
+    if (run.ops && run.ops[0] && run.ops[0].op === "big") {
+      const { op, ...plan } = run.ops[0];
+      const r = bigC13(ctxs.H, plan);
+      if (!r.ok) {
+        console.log(`VIOLATION property=C13 replay=${a1} class=digest-is-not-sha256-of-the-written-bytes`);
+        process.exit(1);
+      }
+      console.log(`replay of ${a1} did not reproduce class '${run.violation_class}'${r.skipped ? " (" + r.skipped + ")" : ""}`);
+      process.exit(0);
+    }
     if (run.deleted_globals) {
       const r1 = await alone(SELF, [prop], run, 30000);
       const r2 = await alone(SELF, [prop], run, 30000, { JSIM_DELETE_GLOBALS: run.deleted_globals.join(",") });
@@ -1527,11 +1566,17 @@ async function main() {
     }
   }
   let big = null;
-  if (prop === "C13" && tier !== "quick") {
+  if (prop === "C13" && !only) {
     const H = await rt("hash");
     installTap(H);
-    big = bigC13(H);
-    if (!big.ok) agg.viol.set("digest-is-not-sha256-of-the-written-bytes(2^29)", { index: -1, v: { property: "C13", class: "digest-is-not-sha256-of-the-written-bytes", detail: big }, run: { ops: [{ op: "big", chunks: 514, chunk_bytes: 1 << 20 }] } });
+    big = { streams: 0, bytes: 0 };
+    for (const plan of BIG_PLANS[tier === "quick" ? "quick" : "thorough"]) {
+      const r = bigC13(H, plan);
+      big.streams++;
+      big.bytes += r.bytes;
+      if (r.skipped) big.skipped = r.skipped;
+      if (!r.ok && !agg.viol.has("digest-is-not-sha256-of-the-written-bytes(long stream)")) agg.viol.set("digest-is-not-sha256-of-the-written-bytes(long stream)", { index: -1, v: { property: "C13", class: "digest-is-not-sha256-of-the-written-bytes", detail: { got: r.got, want: r.want, bytes: r.bytes } }, run: { ops: [{ op: "big", ...plan }] } });
+    }
   }
   // C13: termination / stability of hash256() and hash() on every parser of every compiled module
   let stability = null;
@@ -1669,7 +1714,7 @@ async function main() {
             components: { real: ["packages/beff-client/src/*.ts type-stripped from the working tree (codegen-v2, hash, err, openapi-pp, b, index)", "modules emitted by the real compiler (native beff-wasm session) from corpus and seeded synthetic projects", "24 seeded graphs of named types built at run time with the b API / createNamedType / overrideNamedType"], stub: ["zod (one-line stub)", "bundle-to-disk finalize wrapper (re-stated, self-tested)", "type stripper (swc based; fails loudly on syntax it does not handle)"] },
           }
         : {
-            evaluations: agg.n + (big ? 1 : 0),
+            evaluations: agg.n + (big ? big.streams : 0),
             distinct_nontrivial: agg.nontrivial.size,
             rule: "one evaluation = one seeded sequence of 0-40 public writes (tag/string/number/boolean/null) on one Hash256Writer, string lengths steered onto block and padding boundaries, then digestHex and post-digest fault operations; oracle = node:crypto SHA-256 over the bytes tapped at the writer's single byte sink; distinct = distinct (total length mod 64, number of writes) classes; non-trivial = at least one byte written",
             samples: agg.samples,
@@ -1682,7 +1727,7 @@ async function main() {
             sequences_crossing_a_block_boundary: agg.crossed,
             sequences_needing_the_extra_padding_block: agg.extraPad,
             sibling_sequences_compared_for_injectivity: agg.siblings || 0,
-            run_over_2_pow_29_bytes: big ? { ok: big.ok, bytes: big.bytes } : "thorough tier only",
+            very_long_streams: big ? { ...big, what: "quick: a few small writes around ONE write of 2^28 bytes; thorough adds 514 x 1 MiB (more than 2^29 bytes), one write of 2^29 - 64 bytes, two writes of 2^28 + 3 bytes after 61 bytes" } : null,
             hash256_stability_leg: stability,
             engine_without_TextEncoder: noTextEncoder,
             faults_fired: { operations_after_digest: "see samples; every run ends with 0-2 of them" },
